@@ -22,6 +22,29 @@ another callback, every callback returns without doing anything else.  Hence eve
 `async_read_headers` / `async_read_some` completes its handler exactly once per started operation. -/
 theorem handler_exactly_once : Gen.exitViolations.all (fun p => p.2.isEmpty) = true := by decide
 
+/-- operations whose *result* must not be used after a failure (an endpoint that was never filled in, a byte count) -/
+def resultNeedsCheck (m : String) : Bool := m == "remote_endpoint" || m == "local_endpoint" || m == "bytes_readable"
+
+/-- the accept path (`socket_acceptor::on_accept` / `accept`) sets `TCP_NODELAY` / buffer sizes with the throwing overload on
+the descriptor `accept()` has just returned; on Linux `setsockopt` of these options cannot fail for an open TCP descriptor
+whatever the peer does (listed, not proved; on systems where it fails after a peer reset this is the same defect as D17) -/
+def acceptPathOption (c : String × String × String × Bool × Bool × Bool) : Bool :=
+  c.1 == "private/cgi_acceptor.h" && (c.2.1 == "on_accept" || c.2.1 == "accept") && c.2.2.1 == "set_option"
+
+/-- **nothing may be allowed to throw from a protocol callback**, the system-error part: every `booster::aio` socket
+operation that can fail with a system error (`remote_endpoint`, `local_endpoint`, `set_option`, `shutdown`, `close`,
+`read_some`, `write_some`, `bytes_readable`, `set_non_blocking…`, `open`, `bind`, `listen`, …) in `http_api.cpp`,
+`scgi_api.cpp`, `fastcgi_api.cpp` and `cgi_acceptor.h` (table regenerated from the source: `Gen.sysCallSites`) that is
+not in a constructor/destructor uses the overload taking `booster::system::error_code &`, and where the result is
+meaningless after a failure the statement that follows tests the error code.  Replacing one by the throwing overload
+(seeded C02-7: `socket_.remote_endpoint()` — a peer that resets right after sending its request makes `getpeername` fail)
+or dropping the test (D17) breaks this. -/
+theorem protocol_callbacks_use_nothrow_overloads :
+    Gen.sysCallSites.all (fun c =>
+      c.2.2.2.2.2 || acceptPathOption c || (c.2.2.2.1 && (!resultNeedsCheck c.2.2.1 || c.2.2.2.2.1))) = true ∧
+    Gen.sysCallSites.any (fun c => c.2.2.1 == "remote_endpoint" && c.2.1 == "process_request") = true := by
+  constructor <;> decide
+
 /-- SCGI: for every byte stream and every segmentation the connection model never reaches an
 undefined operation (index out of range, resize to a negative/huge size, `strlen` past the buffer).
 `no_throw` and `bounds_ok` of DESIGN.md in one statement. -/
